@@ -5,7 +5,7 @@
 
    Event kinds (field ev) and what the monitor requires (same rules as the Pool actions):
      attrs.get a   the attribute slice a is not held by anybody        (GetAttrs)
-     attrs.put a   the goroutine holds a                               (PutAttrs)
+     attrs.put a   the goroutine holds a, or holds one and returns its grown successor (PutAttrs)
      pc.get a      the PrintCtx a is not held by anybody               (GetPc: PcExclusive)
      sort.begin a  opens a write window on slice a; for a slice shared between calls
                    (class "shared") no other goroutine may have a window on it     (NoRace)
@@ -54,8 +54,14 @@ Next ==
               /\ atOwner' = (e.a :> e.g) @@ atOwner
               /\ UNCHANGED <<pcOwner, win, wrote, calls, got>>
          [] e.ev = "attrs.put" ->
-              /\ IF Held(atOwner, e.a) /\ atOwner[e.a] = e.g THEN bad' = bad ELSE Reject("attribute slice returned by a goroutine that does not hold it")
-              /\ atOwner' = Drop(atOwner, e.a)
+              \* (a call with more attributes than the slice holds makes it grow: the goroutine then returns the
+              \* grown slice - another array nobody holds - in place of the one it took)
+              /\ LET mine == {x \in DOMAIN atOwner : atOwner[x] = e.g} IN
+                 IF Held(atOwner, e.a) /\ atOwner[e.a] = e.g
+                 THEN bad' = bad /\ atOwner' = Drop(atOwner, e.a)
+                 ELSE IF ~Held(atOwner, e.a) /\ mine # {}
+                 THEN bad' = bad /\ atOwner' = Drop(atOwner, CHOOSE x \in mine : TRUE)
+                 ELSE Reject("attribute slice returned by a goroutine that does not hold it") /\ atOwner' = Drop(atOwner, e.a)
               /\ UNCHANGED <<pcOwner, win, wrote, calls, got>>
          [] e.ev = "pc.get" ->
               /\ IF Held(pcOwner, e.a) THEN Reject("PrintCtx handed out while another goroutine holds it") ELSE bad' = bad
